@@ -205,10 +205,10 @@ func runWorkers(bin, property string, master uint64, workers, maxRuns int, deadl
 
 // runWorkerProc runs one worker process under a real-time watchdog: a worker whose
 // progress file does not change for 30 s is killed (exit 2 material, never a violation).
-func runWorkerProc(bin string, spec map[string]interface{}, prog string, hard time.Time) error {
+func runWorkerProc(bin string, spec map[string]interface{}, prog string, hard time.Time, extraEnv ...string) error {
 	js, _ := json.Marshal(spec)
 	cmd := exec.Command(bin, "-test.run", "^TestWorker$", "-test.count=1", "-test.timeout=0")
-	cmd.Env = append(os.Environ(), "VERIF_WORKER="+string(js))
+	cmd.Env = append(append(os.Environ(), "VERIF_WORKER="+string(js)), extraEnv...)
 	cmd.Dir = filepath.Dir(bin)
 	var outBuf strings.Builder
 	cmd.Stdout, cmd.Stderr = &outBuf, &outBuf
@@ -254,11 +254,16 @@ func tailStr(s string, n int) string {
 
 // execPlan runs one plan in a fresh process and returns its result.
 func execPlan(bin string, p *world.Plan, tmp string, trace bool) (*world.Result, error) {
+	return execRaw(bin, world.MarshalPlan(p), tmp, trace)
+}
+
+// execRaw runs one plan given as JSON in a fresh process.
+func execRaw(bin string, plan []byte, tmp string, trace bool) (*world.Result, error) {
 	pf, err := os.CreateTemp(tmp, "plan-*.json")
 	if err != nil {
 		return nil, err
 	}
-	pf.Write(world.MarshalPlan(p))
+	pf.Write(plan)
 	pf.Close()
 	defer os.Remove(pf.Name())
 	out := pf.Name() + ".out"
@@ -288,57 +293,6 @@ func hasViolation(r *world.Result, sig string, assertion string) bool {
 		}
 	}
 	return false
-}
-
-// minimise shrinks the plan's step list by delta debugging while the same
-// violation signature keeps failing.
-func minimise(bin string, p *world.Plan, sig string, tmp string, budget int) *world.Plan {
-	fails := func(steps []world.Step) bool {
-		if budget <= 0 {
-			return false
-		}
-		budget--
-		q := *p
-		q.Steps = steps
-		r, err := execPlan(bin, &q, tmp, false)
-		return err == nil && r.HarnessErr == "" && hasViolation(r, sig, "")
-	}
-	steps := p.Steps
-	// cut the tail after the failing step first
-	n := 2
-	for len(steps) >= 2 && budget > 0 {
-		chunk := (len(steps) + n - 1) / n
-		reduced := false
-		for i := 0; i < len(steps); i += chunk {
-			j := min(i+chunk, len(steps))
-			cand := append(append([]world.Step{}, steps[:i]...), steps[j:]...)
-			if len(cand) > 0 && fails(cand) {
-				steps = cand
-				n = max(n-1, 2)
-				reduced = true
-				break
-			}
-		}
-		if !reduced {
-			if n >= len(steps) {
-				break
-			}
-			n = min(n*2, len(steps))
-		}
-	}
-	// per-step simplification: drop gaps
-	for i := range steps {
-		if steps[i].Dt > 0 && budget > 0 {
-			cand := append([]world.Step{}, steps...)
-			cand[i].Dt = 0
-			if fails(cand) {
-				steps = cand
-			}
-		}
-	}
-	q := *p
-	q.Steps = steps
-	return &q
 }
 
 // ReplayFile is what a violation is reported as.
@@ -454,8 +408,12 @@ func cmdCheck(id, tier string) int {
 	if n := envInt("VERIF_RUNS", 0); n > 0 {
 		maxRuns = n
 	}
+	ops := worldOps(id, master)
 	if spec.Engine == "sched" {
-		return schedCheck(id, tier, spec, bin, master, workers, maxRuns, budget, tmp, start, buildS)
+		ops = schedOps(bin, id, master, tmp)
+		if tier == "quick" {
+			maxRuns = spec.QuickRuns
+		}
 	}
 	a := newAgg()
 	runStart := time.Now()
@@ -515,7 +473,7 @@ func cmdCheck(id, tier string) int {
 			}
 			break
 		}
-		path, status := reportViolation(bin, id, spec.Engine, master, g, tmp)
+		path, status := reportViolation(bin, id, spec.Engine, master, g, tmp, ops)
 		switch status {
 		case "violation":
 			fmt.Printf("VIOLATION property=%s replay=%s\n", id, path)
@@ -538,7 +496,7 @@ func cmdCheck(id, tier string) int {
 			}
 		}
 	}
-	samples := collectSamples(bin, id, master, tmp, 2)
+	samples := collectSamples(bin, id, tmp, 2, ops)
 	writeEvidence(id, tier, master, a, spec, time.Since(start).Seconds(), buildS, runS, samples, knownLines, len(fresh))
 	fmt.Printf("%s %s: %d runs (%d fault-free), %d distinct traces, %d distinct non-trivial oracle cells, %.0f simulated s, %.1fs wall; %d fresh violation signatures, %d known\n",
 		id, tier, a.runs, a.faultFree, len(a.hashes), len(a.cover), a.simSeconds, time.Since(start).Seconds(), len(fresh), len(keys)-len(fresh))
@@ -548,15 +506,88 @@ func cmdCheck(id, tier string) int {
 	return code
 }
 
+// planOps abstracts what differs between the engines: how run i's plan is obtained and how a plan shrinks.
+type planOps struct {
+	gen    func(index int) ([]byte, uint64, error)
+	shrink func(plan []byte, fails func([]byte) bool) []byte
+}
+
+func worldOps(id string, master uint64) planOps {
+	return planOps{
+		gen: func(i int) ([]byte, uint64, error) {
+			p := world.NewPlan(id, master, i)
+			if p == nil {
+				return nil, 0, fmt.Errorf("no generator for %s", id)
+			}
+			return world.MarshalPlan(p), p.Seed, nil
+		},
+		shrink: func(plan []byte, fails func([]byte) bool) []byte {
+			var p world.Plan
+			if json.Unmarshal(plan, &p) != nil {
+				return plan
+			}
+			q := minimiseSteps(&p, func(c *world.Plan) bool { return fails(world.MarshalPlan(c)) })
+			return world.MarshalPlan(q)
+		},
+	}
+}
+
+// minimiseSteps shrinks the plan's step list by delta debugging while the same
+// violation signature keeps failing, then drops gaps.
+func minimiseSteps(p *world.Plan, fails func(*world.Plan) bool) *world.Plan {
+	try := func(steps []world.Step) bool {
+		q := *p
+		q.Steps = steps
+		return fails(&q)
+	}
+	steps := p.Steps
+	n := 2
+	for len(steps) >= 2 {
+		chunk := (len(steps) + n - 1) / n
+		reduced := false
+		for i := 0; i < len(steps); i += chunk {
+			j := min(i+chunk, len(steps))
+			cand := append(append([]world.Step{}, steps[:i]...), steps[j:]...)
+			if len(cand) > 0 && try(cand) {
+				steps = cand
+				n = max(n-1, 2)
+				reduced = true
+				break
+			}
+		}
+		if !reduced {
+			if n >= len(steps) {
+				break
+			}
+			n = min(n*2, len(steps))
+		}
+	}
+	for i := range steps {
+		if steps[i].Dt > 0 {
+			cand := append([]world.Step{}, steps...)
+			cand[i].Dt = 0
+			if try(cand) {
+				steps = cand
+			}
+		}
+	}
+	q := *p
+	q.Steps = steps
+	return &q
+}
+
 // reportViolation regenerates the failing plan, confirms it in fresh processes,
 // minimises it, confirms again and writes the replay file.
-func reportViolation(bin, id, engine string, master uint64, g *violGroup, tmp string) (string, string) {
-	p := world.NewPlan(id, master, g.Index)
+func reportViolation(bin, id, engine string, master uint64, g *violGroup, tmp string, ops planOps) (string, string) {
+	plan, seed, err := ops.gen(g.Index)
+	if err != nil {
+		return "", err.Error()
+	}
 	sig := g.V.SigString()
 	// (a) reproduce three times out of three in fresh processes
 	var hash string
 	for i := 0; i < 3; i++ {
-		r, err := execPlan(bin, p, tmp, false)
+		r, err := execRaw(bin, plan, tmp, false)
 		if err != nil {
 			return "", "replay failed: " + err.Error()
 		}
@@ -568,13 +599,21 @@ func reportViolation(bin, id, engine string, master uint64, g *violGroup, tmp st
 		}
 		hash = r.TraceHash
 	}
-	// (b) minimise
-	q := minimise(bin, p, sig, tmp, 120)
+	// (b) minimise under an execution budget
+	budget := 120
+	small := ops.shrink(plan, func(c []byte) bool {
+		if budget <= 0 {
+			return false
+		}
+		budget--
+		r, err := execRaw(bin, c, tmp, false)
+		return err == nil && r.HarnessErr == "" && hasViolation(r, sig, "")
+	})
 	// (c) re-execute the minimised plan in a fresh process
-	r, err := execPlan(bin, q, tmp, true)
+	r, err := execRaw(bin, small, tmp, true)
 	if err != nil || !hasViolation(r, sig, "") {
-		q = p
-		r, err = execPlan(bin, q, tmp, true)
+		small = plan
+		r, err = execRaw(bin, small, tmp, true)
 		if err != nil || !hasViolation(r, sig, "") {
 			return "", "minimised plan does not reproduce"
 		}
@@ -586,7 +625,7 @@ func reportViolation(bin, id, engine string, master uint64, g *violGroup, tmp st
 			break
 		}
 	}
-	rf := ReplayFile{Property: id, Assertion: v.Assertion, Signature: sig, Detail: v.Detail, Seed: p.Seed, TraceHash: r.TraceHash, Plan: world.MarshalPlan(q), Trace: r.Trace, Engine: engine}
+	rf := ReplayFile{Property: id, Assertion: v.Assertion, Signature: sig, Detail: v.Detail, Seed: seed, TraceHash: r.TraceHash, Plan: small, Trace: r.Trace, Engine: engine}
 	dir := filepath.Join(verifDir, "replays")
 	os.MkdirAll(dir, 0o755)
 	slug := strings.Map(func(r rune) rune {
@@ -603,29 +642,38 @@ func reportViolation(bin, id, engine string, master uint64, g *violGroup, tmp st
 	return path, "violation"
 }
 
-func collectSamples(bin, id string, master uint64, tmp string, n int) []interface{} {
+func collectSamples(bin, id string, tmp string, n int, ops planOps) []interface{} {
 	var out []interface{}
 	for i := 0; i < n; i++ {
-		p := world.NewPlan(id, master, i)
-		if p == nil {
+		raw, seed, err := ops.gen(i)
+		if err != nil {
 			break
 		}
-		r, err := execPlan(bin, p, tmp, true)
+		r, err := execRaw(bin, raw, tmp, true)
 		if err != nil {
 			continue
 		}
-		var steps []string
-		for _, s := range p.Steps {
-			line := s.Op
-			if s.Dt > 0 {
-				line = fmt.Sprintf("+%v %s", s.Dt, s.Op)
-			}
-			for _, x := range []string{s.Sub, s.B, s.Method, s.Host, clip(s.Target, 60), s.User, s.Endpoint, s.Name} {
-				if x != "" {
-					line += " " + x
+		sample := map[string]interface{}{"run_index": i, "seed": fmt.Sprintf("%x", seed), "trace_hash": r.TraceHash, "violations": len(r.Violations), "generator": r.Gen}
+		var p world.Plan
+		if json.Unmarshal(raw, &p) == nil && len(p.Steps) > 0 {
+			var steps []string
+			for _, s := range p.Steps {
+				line := s.Op
+				if s.Dt > 0 {
+					line = fmt.Sprintf("+%v %s", s.Dt, s.Op)
 				}
+				for _, x := range []string{s.Sub, s.B, s.Method, s.Host, clip(s.Target, 60), s.User, s.Endpoint, s.Name} {
+					if x != "" {
+						line += " " + x
+					}
+				}
+				steps = append(steps, line)
 			}
-			steps = append(steps, line)
+			sample["steps"] = steps
+		} else {
+			var generic map[string]interface{}
+			json.Unmarshal(raw, &generic)
+			sample["plan"] = generic
 		}
 		tr := r.Trace
 		if len(tr) > 30 {
@@ -634,7 +682,8 @@ func collectSamples(bin, id string, master uint64, tmp string, n int) []interfac
 		for i := range tr {
 			tr[i] = clip(tr[i], 260)
 		}
-		out = append(out, map[string]interface{}{"run_index": i, "seed": fmt.Sprintf("%x", p.Seed), "generator": p.Gen, "steps": steps, "trace_head": tr, "trace_hash": r.TraceHash, "violations": len(r.Violations)})
+		sample["trace_head"] = tr
+		out = append(out, sample)
 	}
 	return out
 }
@@ -673,14 +722,7 @@ func cmdReplay(path string) int {
 		fmt.Println(err)
 		return exitUnwell
 	}
-	if engine == "sched" {
-		return schedReplay(bin, &rf, tmp)
-	}
-	var p world.Plan
-	if err := json.Unmarshal(rf.Plan, &p); err != nil {
-		die(exitUnwell, "bad plan: %v", err)
-	}
-	r, err := execPlan(bin, &p, tmp, true)
+	r, err := execRaw(bin, rf.Plan, tmp, true)
 	if err != nil {
 		fmt.Println(err)
 		return exitUnwell
